@@ -30,6 +30,8 @@ SystemsOf(f) ==
                     UNION {SysKBOf(A, [j \in 1..Len(A[1]) |-> IF j = 1 THEN 1 ELSE 2], Vec(Len(A[1]), INF), KVariants(Len(A))) : A \in {A22, A23}}
     [] f = "odd" -> UNION {SysOddOf(A, TRUE) \cup SysOddOf(A, FALSE) : A \in {A22, A23, A33}}
     [] f = "thin" -> UNION {SysBoundsOf(A) \cup SysUnbOf(A) : A \in {A32, A21, A31}}
+                      \* a flat gamut with MORE corners than receptors + 1 (4 receptors x 3 sources: 8 corners)
+                      \cup {Plain(<<<<2, 0, 1>>, <<1, 1, 0>>, <<0, 2, 1>>, <<1, 0, 2>>>>, 4, Vec(3, 0), Vec(3, 4))}
 
 Init == pc = "init" /\ key = "" /\ out = <<>>
 Level1 == pc = "init" /\ \E f \in Families : key' = f /\ pc' = "fam" /\ out' = out
